@@ -43,6 +43,10 @@ def build_pool(seed, n=60):
     pool.append({'src': 'c.and 0xa, 0xb\nc.lw 0b1001, 4(0xa)\nc.srli 0xf, 0x2\nc.sub 0o10, 0xc\n', 'compress': False, 'dicts': True})
     pool.append({'src': 'add 0xa, 0xb, 0xa\nslli 0xf, 0xf, 0x2\nlw 0b1001, 4(0xa)\nsub 0o10, 0o10, 0xc\n', 'compress': False, 'dicts': True,
                  'expect_out': '3385a50093972700832445003304c440'})      # hand-assembled: add x10,x11,x10 / slli x15,x15,2 / lw x9,4(x10) / sub x8,x8,x12
+    # callers that hand in *empty* tables and read the program's names back from them (hand-computed)
+    for k in range(2):
+        pool.append({'src': 'X = %d\nY = X + 7\nS:\naddi x1, x0, Y\nE:\n' % (5 + k), 'compress': False, 'dicts': True, 'expect_out': '9300%x000' % (12 + k),
+                     'expect_tables': {'labels': {'S': 0, 'E': 4}, 'constants': {'X': 5 + k, 'Y': 12 + k}}})
     # program text (not a file) whose include / include_bytes files sit in the working directory of the moment
     for k in range(2):
         pool.append({'src': 'include cwdinc.asm\naddi x1, x0, CWDK\ninclude_bytes cwdblob.bin\n', 'compress': False, 'dicts': True,
@@ -148,6 +152,10 @@ def run_entry(asm, entry, root):
         res['include_dirs_mutated'] = incs != incs_before
     if entry.get('expect_out') is not None:
         res['differs_from_hand_computed'] = None if res.get('out') == entry['expect_out'] else entry['expect_out']
+    if entry.get('expect_tables') is not None and res.get('ok'):
+        got = {'labels': dict(labels), 'constants': dict(constants)}
+        if got != entry['expect_tables']:
+            res['differs_from_hand_computed'] = 'tables %r' % (entry['expect_tables'],)
     return res
 
 
